@@ -440,7 +440,7 @@ func RunC12(cfg Config) *report.Report {
 	r := &report.Report{
 		Property: "C12",
 		Contract: "yae.Eval, yae.NewExpr().Compile, the returned Callable (called twice) and yae.Debug return (value or error): no panic leaves the API, every call finishes within the time budget, and compile time of a bracket nest does not grow by a factor >= 2.5 per two nesting levels over three consecutive steps (>= 30 over the six levels)",
-		Space:    fmt.Sprintf("sources: %d valid programs and all their single-token deletions, duplications and insertions (pool of %d tokens); seeded random byte strings, rune strings and token strings (<= 16 bytes / runes, <= 10 tokens); %d nest shapes (parens, list / map / object literals incl. map literals nested as first key [[[1:1]:1]:1], calls, subscripts, prefix operators, ternaries, method chains, unbalanced) at every depth 1..%d; host values: %d values in the classes nil, typed nil pointer, pointer to nil pointer, nil map, pointers, nested containers, unsupported kinds (chan func complex uintptr), non-environments, unexported fields, non-primitive map keys, nil inside containers, heterogeneous, empty containers, nesting depth > 100, recursive / cyclic, numeric kinds, each with sources 1 and x; a *val.Env passed to the Callable twice", len(c12Corpus), len(c12Pool), len(c12Nests()), maxDepth, len(c12HostCases())),
+		Space:    fmt.Sprintf("sources: %d valid programs and all their single-token deletions, duplications and insertions (pool of %d tokens); seeded random byte strings, rune strings and token strings (<= 16 bytes / runes, <= 10 tokens); %d nest shapes (parens, list / map / object literals incl. map literals nested as first key [[[1:1]:1]:1], calls, subscripts, prefix operators, ternaries, method chains, unbalanced) at every depth 1..%d; host values: %d values in the classes nil, typed nil pointer, pointer to nil pointer, nil map, pointers, nested containers, unsupported kinds (chan func complex uintptr), non-environments, unexported fields, non-primitive map keys, nil inside containers, heterogeneous, empty containers, nesting depth > 100, recursive / cyclic, numeric kinds, each with sources 1 and x; a *val.Env passed to the Callable twice; 6 (failing program, working program of the same built-in) sequences, twice each", len(c12Corpus), len(c12Pool), len(c12Nests()), maxDepth, len(c12HostCases())),
 		Bound:    fmt.Sprintf("single mutations; nest depth <= %d; time budget %v per call; seed %d", maxDepth, budget, cfg.Seed),
 		Rule:     "distinct = (family, source, host value name) by 64-bit FNV-1a hash; non-trivial = every input except the unmutated valid programs and the environments nil / plain map (those are the baseline)",
 	}
@@ -508,6 +508,31 @@ func RunC12(cfg Config) *report.Report {
 		for i, o := range []outcome{first, second} {
 			if o.panicked {
 				c.fail("C12/panic/callable/reused-environment", desc, "a value or an error", fmt.Sprintf("call %d: %s", i+1, o), "")
+			}
+		}
+	}))
+
+	// a failed evaluation must not poison later ones: each documented run-time
+	// failure (bad regular expression, subscript out of range, missing key,
+	// modulo zero, bad time text), followed by a working evaluation of the same
+	// built-in, through every entry point, in one process
+	mergeCounts(counts, parallel(r, distinct, 1, func(_ int, c *chunk) {
+		pairs := []struct{ bad, good string }{
+			{`match("(", "abc")`, `match("a", "abc")`},
+			{`match("[a-", s)`, `match("^h", s)`},
+			{`xs[99]`, `xs[0]`},
+			{`mp["absent"]`, `len(mp) >= 0`},
+			{`n % 0`, `n % 2`},
+			{`strtotime("not a time")`, `strtotime("2020-01-01 00:00:00")`},
+		}
+		for _, pr := range pairs {
+			for round := 0; round < 2; round++ {
+				c.evals++
+				c.nontrivial2("after-failure", pr.bad+"\x00"+pr.good)
+				desc := fmt.Sprintf("source %q evaluated after %q failed (round %d), environment: map with n k s b t xs ss mp o", pr.good, pr.bad, round+1)
+				c12RunAPIs(pr.bad, c12Env, budget) // outcome judged by the main family
+				res := c12RunAPIs(pr.good, c12Env, budget)
+				c12Judge(desc, "after-failure", "", res, c, &c12Slow{})
 			}
 		}
 	}))
